@@ -373,9 +373,23 @@ func (g *sgen) enum(scope string, fi, syn int, feat sgFeat) *descriptorpb.EnumDe
 		ed.Options.AllowAlias = proto.Bool(true)
 	}
 	if r.Chance(1, 4) {
-		ed.ReservedRange = append(ed.ReservedRange, &descriptorpb.EnumDescriptorProto_EnumReservedRange{Start: proto.Int32(num + 10), End: proto.Int32(num + 10 + int32(r.Intn(3)))})
+		// one to five disjoint reserved ranges (inclusive ends; single numbers,
+		// negative ranges), declared in any order
+		lo := num + 10
+		for k, n := 0, 1+r.Intn(5); k < n; k++ {
+			hi := lo + int32(r.Intn(3))
+			ed.ReservedRange = append(ed.ReservedRange, &descriptorpb.EnumDescriptorProto_EnumReservedRange{Start: proto.Int32(lo), End: proto.Int32(hi)})
+			lo = hi + 1 + int32(r.Intn(4))
+		}
 		if r.Bool() {
 			ed.ReservedRange = append(ed.ReservedRange, &descriptorpb.EnumDescriptorProto_EnumReservedRange{Start: proto.Int32(-100), End: proto.Int32(-90)})
+			if r.Bool() {
+				ed.ReservedRange = append(ed.ReservedRange, &descriptorpb.EnumDescriptorProto_EnumReservedRange{Start: proto.Int32(-2000), End: proto.Int32(-2000)})
+			}
+		}
+		for i := len(ed.ReservedRange) - 1; i > 0; i-- {
+			j := r.Intn(i + 1)
+			ed.ReservedRange[i], ed.ReservedRange[j] = ed.ReservedRange[j], ed.ReservedRange[i]
 		}
 		ed.ReservedName = append(ed.ReservedName, upper+"_RESERVED")
 	}
@@ -578,7 +592,7 @@ func (g *sgen) message(scope string, fi, syn int, feat sgFeat, visible map[int]b
 	}
 	// extension ranges and reserved ranges beyond the used numbers
 	if syn != 3 && !g.o.NoExtensions && r.Chance(1, 2) {
-		k := 1 + r.Intn(2)
+		k := 1 + r.Intn(4)
 		for i := 0; i < k; i++ {
 			start := next + int32(r.Intn(10))
 			end := start + int32(1+r.Intn(100))
@@ -600,9 +614,27 @@ func (g *sgen) message(scope string, fi, syn int, feat sgFeat, visible map[int]b
 			}
 		}
 	}
+	if len(md.ExtensionRange) > 1 && r.Bool() {
+		for i := len(md.ExtensionRange) - 1; i > 0; i-- {
+			j := r.Intn(i + 1)
+			md.ExtensionRange[i], md.ExtensionRange[j] = md.ExtensionRange[j], md.ExtensionRange[i]
+		}
+	}
 	if r.Chance(1, 4) && next < 500000000 {
+		// one to five disjoint reserved ranges (exclusive ends), declared in any order
 		start := next + int32(r.Intn(5))
-		md.ReservedRange = append(md.ReservedRange, &descriptorpb.DescriptorProto_ReservedRange{Start: proto.Int32(start), End: proto.Int32(start + int32(1+r.Intn(9)))})
+		for k, n := 0, 1+r.Intn(5); k < n && start < 500000000; k++ {
+			end := start + int32(1+r.Intn(9))
+			if start <= 19999 && end > 19000 {
+				start, end = 20000, 20000+int32(1+r.Intn(9))
+			}
+			md.ReservedRange = append(md.ReservedRange, &descriptorpb.DescriptorProto_ReservedRange{Start: proto.Int32(start), End: proto.Int32(end)})
+			start = end + int32(r.Intn(4))
+		}
+		for i := len(md.ReservedRange) - 1; i > 0; i-- {
+			j := r.Intn(i + 1)
+			md.ReservedRange[i], md.ReservedRange[j] = md.ReservedRange[j], md.ReservedRange[i]
+		}
 		md.ReservedName = append(md.ReservedName, g.id("reserved_name"))
 		if r.Bool() {
 			md.ReservedName = append(md.ReservedName, g.id("other_reserved"))
